@@ -1,7 +1,8 @@
 #!/bin/bash
-# builds the loom harness (with /repo compiled under --cfg dsi_bitstream_verif, see .cargo/config.toml)
-cd /verif/harness-loom || exit 3
+# builds the loom harness (with the repository compiled under --cfg dsi_bitstream_verif, see .cargo/config.toml)
+D=$(dirname "$(readlink -f "$0")")
+cd "$D" || exit 3
 export CARGO_NET_OFFLINE=true
 if ! cargo build --release --offline > target.build.log 2>&1; then
-  echo "MACHINERY: build of the loom harness failed (see /verif/harness-loom/target.build.log)"; tail -20 target.build.log; exit 2
+  echo "MACHINERY: build of the loom harness failed (see $D/target.build.log)"; tail -20 target.build.log; exit 2
 fi
